@@ -37,6 +37,7 @@ from rl_blox.blox import probabilistic_ensemble as PE
 from rl_blox.blox import q_policy, value_policy
 from rl_blox.blox.embedding import model_based_encoder as MBE
 from rl_blox.blox.embedding import sale as SALE
+from rl_blox.blox.embedding import task_embedding as TE
 from rl_blox.blox.function_approximator.mlp import MLP
 from rl_blox.blox.function_approximator.policy_head import SoftmaxPolicy
 from rl_blox.blox.gae import compute_gae
@@ -330,6 +331,22 @@ def scale_params(module, s):
     nnx.update(module, jax.tree.map(lambda x: x * s, st))
 
 
+MT_TASKS = 3
+MT_ROW_NORMS = (0.5, 1.0, 3.0)  # max_task_embedding_norm is 1.0: inside the ball, on it, outside it (where an optimizer step may leave a row)
+
+
+def mt_prepare(module, case):
+    """Multi-task network: select a task, THEN give the task-embedding rows norms inside / on / outside the max-norm ball
+    (the documented renormalisation happens on select_task; between two selections every row value is a legal parameter value)."""
+    t = (case["seed"] + case["r"] + sum(case["pat"])) % MT_TASKS
+    module.select_task(t)
+    emb = np.asarray(module._task_embedding.embedding.value, dtype=np.float64)
+    n = np.linalg.norm(emb, axis=1, keepdims=True)
+    want = np.asarray([MT_ROW_NORMS[(i + t) % 3] for i in range(emb.shape[0])])[:, None]
+    module._task_embedding.embedding.value = jnp.asarray((emb / np.maximum(n, 1e-6) * want).astype(np.float32))
+    return t
+
+
 def opt_for(module, optk):
     return nnx.Optimizer(module, TXS[optk], wrt=nnx.Param)
 
@@ -389,10 +406,17 @@ def case_batch(case, discrete=False):
 
 def fam_dqn(ps, optk, hid, case):
     s, sc = ps
-    pr = protos(("dqn", s, tuple(hid)), lambda: dict(q=MLP(2, 2, list(hid), "relu", nnx.Rngs(s)), qt=MLP(2, 2, list(hid), "relu", nnx.Rngs(s + 10))))
+    mt = bool(case.get("mt"))
+    if mt:
+        net = lambda seed: TE.MTMLPQNetwork(MT_TASKS, 2, 2, 2, list(hid), "relu", nnx.Rngs(seed))  # noqa: E731
+    else:
+        net = lambda seed: MLP(2, 2, list(hid), "relu", nnx.Rngs(seed))  # noqa: E731
+    pr = protos(("dqn", s, tuple(hid), mt), lambda: dict(q=net(s), qt=net(s + 10)))
     q, qt = pr["q"], pr["qt"]
     for m in (q, qt):
         scale_params(m, sc)
+        if mt:
+            mt_prepare(m, case)
     qo = opt_for(q, optk)
     comps = dict(q=q, q_optimizer=qo, q_target=qt)
     d, batch = case_batch(case, discrete=True)
@@ -429,7 +453,7 @@ def fam_dqn(ps, optk, hid, case):
             return Op(name, lambda: [q_policy.greedy_policy(q, o) for o in np.asarray(batch[0])], comps, ["q"])
         raise KeyError(name)
 
-    return comps, make, "MLP"
+    return comps, make, "MTMLPQNetwork" if mt else "MLP"
 
 
 # ---- DDPG / TD3 / TD3+LAP ---------------------------------------------------------------------
@@ -591,7 +615,11 @@ def fam_sac(ps, optk, hid, case):
 
             return Op("sac_update_actor", lambda: SAC.sac_update_actor(policy, po, q, k1, obs, ec.alpha_), comps,
                       ["policy", "policy_optimizer", "q"], trained=["policy"], allowed=["policy_optimizer"], ref=ref)
-        if name == "update:alpha":
+        if name.startswith("update:alpha"):
+            if "@" in name:  # temperature far from its initial value: every log-temperature is a legal parameter value
+                ec._alpha.log_alpha.value = jnp.asarray([np.float32(float(name.split("@")[1]))])
+                ec.alpha_ = ec._alpha()
+
             def ref():
                 fn = lambda a_, p_, dat: SAC.sac_exploration_loss(p_, ec.target_entropy, dat[0], dat[1], a_)  # noqa: E731
                 g = refgrad("sac:alpha", fn, (ec._alpha, policy), (k2, obs))
@@ -653,8 +681,10 @@ def fam_td7(ps, optk, hid, case):
                 fn = lambda e_, dat: SALE.state_action_embedding_loss(e_, *dat)  # noqa: E731
                 return dict(embedding=refgrad("td7:sale", fn, (embedding,), (obs, act, nobs))[0])
 
-            return Op("update_sale", lambda: SALE.update_sale(embedding, eo, obs, act, nobs), comps,
-                      ["embedding", "embedding_optimizer"], trained=["embedding"], allowed=["embedding_optimizer"], ref=ref)
+            parts = {"embedding.state_embedding": Sub(embedding, ["['_state_embedding']"]),
+                     "embedding.state_action_embedding": Sub(embedding, ["['state_action_embedding']"])} if sc == 1.0 else {}
+            return Op("update_sale", lambda: SALE.update_sale(embedding, eo, obs, act, nobs), dict(comps, **parts),
+                      ["embedding", "embedding_optimizer"], trained=["embedding"] + sorted(parts), allowed=["embedding_optimizer"], ref=ref)
         if name == "update:critic":
             def ref():
                 def fn(c_, f_, ft_, ct_, dat):
@@ -702,23 +732,32 @@ def fam_td7(ps, optk, hid, case):
 B6 = namedtuple("Batch", ["observation", "action", "reward", "next_observation", "terminated", "truncated"])
 
 
-def _mrq_state(seed, hid):
+def _mrq_state(seed, hid, mt=False):
+    if mt:
+        return TE.create_mt_mrq_state(ENV_C, MT_TASKS, task_embedding_dim=2, policy_hidden_nodes=list(hid), q_hidden_nodes=list(hid),
+                                      encoder_n_bins=5, encoder_zs_dim=3, encoder_za_dim=2, encoder_zsa_dim=3,
+                                      encoder_hidden_nodes=list(hid), seed=seed)
     return MRQ.create_mrq_state(ENV_C, policy_hidden_nodes=list(hid), q_hidden_nodes=list(hid), encoder_n_bins=5, encoder_zs_dim=3,
                                 encoder_za_dim=2, encoder_zsa_dim=3, encoder_hidden_nodes=list(hid), seed=seed)
 
 
 def fam_mrq(ps, optk, hid, case):
     s, sc = ps
+    mt = bool(case.get("mt"))
+
     def mk():
-        a, b = _mrq_state(s, hid), _mrq_state(s + 10, hid)
+        a, b = _mrq_state(s, hid, mt), _mrq_state(s + 10, hid, mt)
         return dict(pwe=a.policy_with_encoder, q=a.q, pwe_t=b.policy_with_encoder, q_t=b.q, _encoder_optimizer=a.encoder_optimizer,
                     _policy_optimizer=a.policy_optimizer, _q_optimizer=a.q_optimizer, _bins=a.the_bins)
 
-    pr = protos(("mrq", s, tuple(hid)), mk)
+    pr = protos(("mrq", s, tuple(hid), mt), mk)
     pwe, pwe_t, q, q_t = pr["pwe"], pr["pwe_t"], pr["q"], pr["q_t"]
     enc, pol, enc_t, pol_t = pwe.encoder, pwe.policy, pwe_t.encoder, pwe_t.policy
     for m in (enc, pol, q, enc_t, pol_t, q_t):
         scale_params(m, sc)
+    if mt:
+        mt_prepare(enc, dict(case, pat=list(case["pat"])))
+        mt_prepare(enc_t, dict(case, pat=list(case["pat"])))
     eo, po, qo = opt_for(enc, optk), opt_for(pol, optk), opt_for(q, optk)
     comps = dict(encoder=enc, encoder_optimizer=eo, policy=pol, policy_optimizer=po, q=q, q_optimizer=qo,
                  encoder_target=enc_t, policy_target=pol_t, q_target=q_t)
@@ -737,7 +776,7 @@ def fam_mrq(ps, optk, hid, case):
             f32(np.tile(R, (2, 1))), f32(rng.normal(size=(M, H, 2)).round(3)), jnp.asarray(np.tile(T, (2, 1))),
             jnp.zeros((M, H), dtype=jnp.int32))
     terminates = bool(T.any())
-    bins = _PROTO[("mrq", s, tuple(hid))]["_bins"]
+    bins = _PROTO[("mrq", s, tuple(hid), mt)]["_bins"]
 
     def enc_loss(e_, et_, dat):
         one = jax.tree_util.tree_map(lambda x: x[:N], dat)  # the first of the target_delay blocks
@@ -766,9 +805,15 @@ def fam_mrq(ps, optk, hid, case):
                 g = refgrad(f"mrq:enc{N}-{H}-{terminates}", enc_loss, (enc, enc_t), eb)
                 return dict(encoder=g[0], encoder_target=g[1])
 
+            # the representation update trains every part of the encoder (state encoder, action encoder, joint encoder, model
+            # head): with generic parameters and data each part is obliged to move (no reference gradient: the repository's
+            # loss cannot vouch for its own gradient paths)
+            parts = {"encoder.state_encoder": Sub(enc, ["['zs']", "['zs_layer_norm']"]), "encoder.action_encoder": Sub(enc, ["['za']"]),
+                     "encoder.joint_encoder": Sub(enc, ["['zsa']"]), "encoder.model_head": Sub(enc, ["['model']"])} if sc == 1.0 else {}
             return Op("update_model_based_encoder",
                       lambda: MBE.update_model_based_encoder(enc, enc_t, eo, bins, H, 1.0, 0.1, 0.1, 2, N, True, eb, terminates),
-                      comps, ["encoder", "encoder_target", "encoder_optimizer"], trained=["encoder"], allowed=["encoder_optimizer"], ref=ref)
+                      dict(comps, **parts), ["encoder", "encoder_target", "encoder_optimizer"], trained=["encoder"] + sorted(parts),
+                      allowed=["encoder_optimizer"], ref=ref)
         if name == "mrq_loss":
             return Op(name, lambda: MRQ.mrq_loss(q, q_t, enc, enc_t, nact, sb, GAMMA, rs, trs), comps, ["q", "q_target", "encoder", "encoder_target"])
         if name == "mrq_policy_loss":
@@ -792,7 +837,7 @@ def fam_mrq(ps, optk, hid, case):
             return Op(name, call, comps, ["encoder", "policy", "encoder_target", "policy_target"])
         raise KeyError(name)
 
-    return comps, make, "create_mrq_state"
+    return comps, make, "create_mt_mrq_state" if mt else "create_mrq_state"
 
 
 # ---- PPO --------------------------------------------------------------------------------------
@@ -1036,12 +1081,14 @@ def fam_tab(ps, optk, hid, case):
 
 FAMS = dict(dqn=fam_dqn, ddpg=fam_ddpg, td3=fam_td3, sac=fam_sac, td7=fam_td7, mrq=fam_mrq, ppo=fam_ppo, pg=fam_pg, pets=fam_pets,
             tab=fam_tab)
+FAMS["dqn_mt"] = lambda ps, optk, hid, case: fam_dqn(ps, optk, hid, dict(case, mt=True))
+FAMS["mrq_mt"] = lambda ps, optk, hid, case: fam_mrq(ps, optk, hid, dict(case, mt=True))
 _DQN_LOSSES = ["dqn_loss", "nature_dqn_loss", "ddqn_loss", "ddqn_per_loss"]
 UPDATES = dict(
     dqn=["update:" + k for k in _DQN_LOSSES],
     ddpg=["update:critic", "update:actor"],
     td3=["update:critic", "update:critic_lap", "update:actor"],
-    sac=["update:critic", "update:actor", "update:alpha"],
+    sac=["update:critic", "update:actor", "update:alpha", "update:alpha@-5", "update:alpha@2", "update:alpha@-9", "update:alpha@4"],
     td7=["update:sale", "update:critic", "update:actor"],
     mrq=["update:critic_and_policy", "update:encoder"],
     ppo=["update:ppo"],
@@ -1071,6 +1118,9 @@ TRAINED_ANY = dict(
 )
 # updates that go through the un-decorated train_step_with_loss are explored jitted (as the loops ship it) and eager
 EAGER_UPDATES = dict(dqn=UPDATES["dqn"], ddpg=["update:critic"], td3=["update:critic", "update:critic_lap"], sac=["update:critic"])
+for _f in ("dqn", "mrq"):  # the same routines on multi-task networks
+    UPDATES[_f + "_mt"], READONLY[_f + "_mt"], TRAINED_ANY[_f + "_mt"] = UPDATES[_f], READONLY[_f], TRAINED_ANY[_f]
+EAGER_UPDATES["dqn_mt"] = EAGER_UPDATES["dqn"]
 
 
 # ---------------------------------------------------------------------------------------------
@@ -1080,6 +1130,8 @@ EAGER_UPDATES = dict(dqn=UPDATES["dqn"], ddpg=["update:critic"], td3=["update:cr
 def cases_for(fam, N, tier, seed):
     nr = 2 if tier == "quick" else 3
     out = []
+    if fam.endswith("_mt"):
+        return cases_for(fam[:-3], N, tier, seed)
     if fam in ("dqn", "ddpg", "td3", "sac", "td7", "ppo"):
         for pat, r in itertools.product(patterns(N), range(nr)):
             out.append(dict(N=N, pat=list(pat), r=r, seed=seed))
@@ -1126,6 +1178,8 @@ def _items(tier, seed):
         for N, optk, hid in itertools.product(Ns, ["sgd", "adam"], hids):
             if fam == "tab" and (optk != "sgd" or N != 2 or hid != [3]):
                 continue
+            if fam.endswith("_mt") and (N != 2 or hid != [3]):
+                continue
             if hid != [3] and (N != 3 or fam == "tab"):
                 continue  # the second network shape is crossed with one batch size only
             modes = ["jit", "eager"] if fam in EAGER_UPDATES else ["jit"]
@@ -1138,7 +1192,7 @@ def _items(tier, seed):
                     out.append(dict(name=f"{fam}-N{N}-{optk}-h{'x'.join(map(str, hid))}-{mode}-ps{pi}", fam=fam, N=N, opt=optk, hid=hid,
                                     mode=mode, ps=ps, tier=tier, seed=seed))
     # longest items first (pool balance only; the set of items is unchanged)
-    cost = dict(mrq=0, pg=1, td7=2, sac=3, td3=4, ddpg=5, dqn=6, pets=7, ppo=8, tab=9)
+    cost = dict(mrq=0, mrq_mt=0, pg=1, td7=2, sac=3, td3=4, ddpg=5, dqn=6, dqn_mt=6, pets=7, ppo=8, tab=9)
     out.sort(key=lambda i: (cost[i["fam"]], -i["N"], i["opt"] != "sgd", i["name"]))
     return out
 
